@@ -10,9 +10,13 @@ import (
 	"fmt"
 	"net"
 	"net/http"
+	"net/http/httptest"
 	"net/url"
 	"strings"
+	"sync/atomic"
 	"time"
+
+	"github.com/oauth2-proxy/oauth2-proxy/v7/pkg/requests"
 )
 
 type scenario struct {
@@ -384,6 +388,11 @@ func init() {
 			{"alg-hs256-pubkey", func(p *fakeIDP) { p.signAlg = "HS256" }},
 			{"email-unverified", func(p *fakeIDP) { p.claimOverride = map[string]interface{}{"email_verified": false} }},
 			{"sub-number", func(p *fakeIDP) { p.claimOverride = map[string]interface{}{"sub": 77} }},
+			// email_verified of the wrong JSON type: "false" / 0 / "no" must never count as verified
+			{"email-verified-string-false", func(p *fakeIDP) { p.claimOverride = map[string]interface{}{"email_verified": "false"} }},
+			{"email-verified-zero", func(p *fakeIDP) { p.claimOverride = map[string]interface{}{"email_verified": 0} }},
+			{"email-verified-string-no", func(p *fakeIDP) { p.claimOverride = map[string]interface{}{"email_verified": "no"} }},
+			{"email-verified-object", func(p *fakeIDP) { p.claimOverride = map[string]interface{}{"email_verified": map[string]interface{}{"v": false}} }},
 		}
 		resetIDP := func(p *fakeIDP) {
 			p.mu.Lock()
@@ -486,10 +495,21 @@ func init() {
 						}
 					}
 					for _, cf := range claimFaults {
-						e.idp.mu.Lock()
-						cf.set(e.idp)
-						e.idp.mu.Unlock()
-						rs, b := fl.setup()
+						var rs reqSpec
+						var b *browser
+						if fl.name == "refresh" {
+							// the stored session is minted clean; the REFRESH RESPONSE carries the faulted id_token
+							rs, b = fl.setup()
+							e.idp.mu.Lock()
+							cf.set(e.idp)
+							e.idp.refreshReturnsIDToken = true
+							e.idp.mu.Unlock()
+						} else {
+							e.idp.mu.Lock()
+							cf.set(e.idp)
+							e.idp.mu.Unlock()
+							rs, b = fl.setup()
+						}
 						v, real := e.serveCase(rs, nil, "idp:"+fl.name+":"+cf.name)
 						resetIDP(e.idp)
 						must := true
@@ -500,8 +520,10 @@ func init() {
 							must = fl.name == "login" // bearer falls back to sub; refresh keeps identity
 						}
 						if fl.name == "refresh" {
-							// the faulted token is only the ONE minted at setup for the stored session (idToken issued before the override)
-							must = false
+							switch cf.name {
+							case "email-absent":
+								must = false // a refreshed token without an e-mail keeps the stored identity
+							}
 						}
 						check(fl.name, "claim:"+cf.name, rs, b, v, real, must)
 						c.count("claimfault:" + cf.name)
@@ -516,6 +538,110 @@ func init() {
 				e.close()
 			}
 		}
-		c.close([]string{"c14:faulted", "c14:clean", "idpfault:reset", "idpfault:oversized", "claimfault:aud-number", "claimfault:alg-none"})
+		// Provider variant: Keycloak-OIDC derives roles from the ACCESS token at login, refresh and bearer time;
+		// an access token that does not verify / has wrongly typed role claims must create or extend no session.
+		for _, redis := range []bool{false, true} {
+			cfg := proxyCfg{Redis: redis, CookieRefresh: time.Hour, ProviderType: "keycloak-oidc", InjectRequest: defaultInject()}
+			e, err := newEnv(c, cfg)
+			if err != nil {
+				c.violation("HARNESS", "env(keycloak): "+err.Error(), nil)
+				continue
+			}
+			e.idp.rotateRT = true
+			for _, mode := range []string{"good", "garbage", "other-key", "roles-wrong-type", "aud-other", "expired"} {
+				bad := mode != "good"
+				input := map[string]interface{}{"provider": "keycloak-oidc", "access_token": mode, "redis": redis}
+				// login
+				e.idp.mu.Lock()
+				e.idp.accessJWT, e.idp.accessJWTRefresh = mode, ""
+				e.idp.mu.Unlock()
+				b := newBrowser()
+				lr := e.login(b, u, "/kc")
+				c.casen(fmt.Sprintf("c14|kc|%v|login|%s", redis, mode), fmt.Sprintf("ok=%v", lr.OK))
+				c.count("c14:keycloak")
+				if bad && lr.OK {
+					c.violation("C14", "Keycloak-OIDC login: session created although the access token (role source) does not verify", input)
+				}
+				if !bad && !lr.OK {
+					c.violation("HARNESS", "Keycloak-OIDC clean login failed", input)
+				}
+				// refresh: clean stored session, refresh response carries the faulted access token
+				e.idp.mu.Lock()
+				e.idp.accessJWT, e.idp.accessJWTRefresh = "good", mode
+				e.idp.mu.Unlock()
+				b2 := newBrowser()
+				s := e.sessionFor(u, 2*time.Hour)
+				s.RefreshToken = fmt.Sprintf("rt-kc-%d", time.Now().UnixNano())
+				e.registerRT(s.RefreshToken, u)
+				b2.jarFromHeader(e.issueSessionCookie(s))
+				r := e.do(reqSpec{Target: "/app/kc", Cookie: b2.cookieHeader()})
+				est := hasSessionSet(r, e.opts.Cookie.Name)
+				c.casen(fmt.Sprintf("c14|kc|%v|refresh|%s", redis, mode), fmt.Sprintf("reissued=%v hits=%d", est, len(r.Hits)))
+				if bad && est {
+					input["flow"] = "refresh"
+					c.violation("C14", "Keycloak-OIDC refresh: session extended (re-issued) although the refreshed access token does not verify", input)
+				}
+				if !bad && !est {
+					c.violation("HARNESS", "Keycloak-OIDC clean refresh did not re-issue the session", input)
+				}
+			}
+			e.idp.mu.Lock()
+			e.idp.accessJWT, e.idp.accessJWTRefresh = "", ""
+			e.idp.mu.Unlock()
+			e.close()
+		}
+		// The shared identity-provider request helper (pkg/requests: default code redemption, token
+		// validation, profile look-ups) must report a response whose body was cut short as an ERROR,
+		// never as a (shorter) successful response: status 200 + Content-Length n, fewer than n bytes, close.
+		{
+			bodies := []string{
+				`{"access_token":"at-complete","token_type":"Bearer","expires_in":3600}`,
+				`{"access_token":"at-cut`,
+				`access_token=fragment`,
+				`{"active": f`,
+				`{"email":"user@example.com","email_verified":true}`,
+				`x`,
+			}
+			var mode atomic.Int64
+			srv := httptest.NewServer(http.HandlerFunc(func(w http.ResponseWriter, r *http.Request) {
+				m := int(mode.Load())
+				body := bodies[m%len(bodies)]
+				extra := 1 + (m/len(bodies))*37
+				hjk, ok := w.(http.Hijacker)
+				if !ok {
+					return
+				}
+				conn, buf, _ := hjk.Hijack()
+				fmt.Fprintf(buf, "HTTP/1.1 200 OK\r\nContent-Type: application/json\r\nContent-Length: %d\r\n\r\n%s", len(body)+extra, body)
+				buf.Flush()
+				if m%2 == 1 {
+					if tc, ok := conn.(*net.TCPConn); ok {
+						tc.SetLinger(0)
+					}
+				}
+				conn.Close()
+			}))
+			for m := 0; m < len(bodies)*3; m++ {
+				mode.Store(int64(m))
+				res := requests.New(srv.URL + "/short").Do()
+				c.casen(fmt.Sprintf("c14|short|%d", m), "short-read")
+				c.count("c14:short-read")
+				input := map[string]interface{}{"endpoint": "status 200, Content-Length larger than the body sent, connection closed", "body_sent": bodies[m%len(bodies)], "declared_extra_bytes": 1 + (m/len(bodies))*37}
+				if res.Error() == nil {
+					input["status"], input["body_seen"] = res.StatusCode(), string(res.Body())
+					c.violation("C14", "a cut-short identity-provider response is handed to the providers as a complete successful response (pkg/requests)", input)
+					continue
+				}
+				var into map[string]interface{}
+				if err := res.UnmarshalInto(&into); err == nil {
+					c.violation("C14", "a cut-short identity-provider response unmarshals without error (pkg/requests)", input)
+				}
+				if _, err := res.UnmarshalSimpleJSON(); err == nil {
+					c.violation("C14", "a cut-short identity-provider response parses as JSON without error (pkg/requests)", input)
+				}
+			}
+			srv.Close()
+		}
+		c.close([]string{"c14:faulted", "c14:clean", "idpfault:reset", "idpfault:oversized", "claimfault:aud-number", "claimfault:alg-none", "c14:short-read", "c14:keycloak"})
 	})
 }
